@@ -25,7 +25,13 @@ sec = ["## 11. Behaviour-preserving refactorings (generated from benign/*/meta.j
        "the interface requires; the translator plug-ins were widened so that the shapes below are recognised. Rows are the state",
        "at the last `tools/refall.py` run. History: at first 10 of the 38 round-1 refactorings and 6 + 4 of the 22 rename/move-heavy",
        "round-2 ones raised an alarm (one of them, C03-3, a concrete false verdict through a silent reflect-by-name lookup); after the",
-       "corrections described in 2.9 all of them are quiet while every seeded change of section 8 is still caught.", "",
+       "corrections described in 2.9 all of those are quiet while every seeded change of section 8 is still caught. A third round (20",
+       "more, rename/move-heavy, for the remaining properties) found one more misclassification (a loud harness failure recorded as a",
+       "`no-panic` oracle verdict in C05/C06: now `vAbort`, which ends the run as a broken tie) and leaves three alarms, all",
+       "`no-failing-input-found` with the replay naming what is missing: C10-3 and C17-3 rename an unexported error sentinel the",
+       "in-package harness compares by identity (`errDataNotEnough`, `commentNotMatch`), C11-3 renames the `validate` method whose bounds",
+       "the translator emits under that name. These are the documented residue: a harness or translator anchored on an unexported NAME",
+       "loses its tie when the name goes, and says so instead of guessing.", "",
        "%d refactorings, %d leave every check they were run against green." % (len(rows), green), "",
        "| refactoring | checks run -> stays green | what it changes |", "|---|---|---|"]
 for name, m, first in rows:
